@@ -4,6 +4,8 @@ from . import assemble
 from .rsscan import ScanError
 
 WORK = os.environ.get("VERIF_WORK", "/var/tmp/zipverif-work")
+CREATED = []   # work directories made by this process (removed by the driver at the end; never the whole WORK root:
+               # other checks may be running concurrently)
 
 VERIF_KINDS = [
     ("postcondition not satisfied", "postcondition"),
@@ -61,6 +63,7 @@ def run_unit(name, twin=False, seed=0, rlimit=None, extra_args=()):
     res.unit, res.text = unit, text
     tag = hashlib.sha256(text.encode()).hexdigest()[:10]
     d = tempfile.mkdtemp(prefix="%s%s-" % (name, "-twin" if twin else ""), dir=WORK)
+    CREATED.append(d)
     path = os.path.join(d, name.lower().replace("-", "_") + ("_twin" if twin else "") + ".rs")
     open(path, "w").write(text)
     res.path = path
